@@ -273,9 +273,11 @@ def clause_env(spec_root):
     if spec_root not in sys.path:
         sys.path.insert(0, spec_root)
     import spec
-    env = {'spec': spec, 'np': np, 'log': np.log, 'exp': np.exp,
+    import pmutt.constants as const
+    env = {'spec': spec, 'const': const, 'np': np, 'log': np.log, 'exp': np.exp,
            'sqrt': np.sqrt, 'pi': math.pi,
            'implies': lambda a, b: (not a) or b,
+           'at': lambda r, i: r[i] if hasattr(r, '__len__') else r,
            'isclose': lambda a, b, tol=1e-9: approx_eq(a, b, tol)}
     return env
 
